@@ -24,19 +24,17 @@ Rec == ndJsonDeserialize(IOEnv.TRACE)
 
 Ev == Rec[nexch + 1]          \* the event being replayed (phase # "idle")
 
-TraceHostSends == nexch < Len(Rec) /\ HostSends(Rec[nexch + 1].in)
+TraceHostSends == nexch < Len(Rec) /\ Rec[nexch + 1].outcome = "return" /\ HostSends(Rec[nexch + 1].in)
 
-TraceNext ==
-    \/ TraceHostSends
-    \/ Decode2 \/ Decode1 \/ DecodeType \/ Lookup \/ Call \/ Reject
-    \/ Encode2 \/ Encode1 \/ EncodeType \/ SerializeAuthDataAct
-    \/ NextExchange
-
-TraceSpec == Init /\ [][TraceNext]_vars
+\* the generator's nondeterminism is resolved by the recorded value
+TraceGenerate == nexch < Len(Rec) /\ Generate(Rec[nexch + 1].obs)
 
 (***************************************************************************)
 (* helpers                                                                 *)
 (***************************************************************************)
+RECURSIVE SetAsSeq(_)
+SetAsSeq(S) == IF S = {} THEN << >> ELSE LET x == CHOOSE x \in S : TRUE IN <<x>> \o SetAsSeq(S \ {x})
+
 SeqToSet(s) == {s[i] : i \in 1..Len(s)}
 Props(e) == IF "props" \in DOMAIN e.in THEN SeqToSet(e.in.props) ELSE {}
 
@@ -185,6 +183,22 @@ Verdict_lookup(e) ==
 (***************************************************************************)
 (* The verdict of the event whose exchange just reached its terminal phase *)
 (***************************************************************************)
+Verdict_arbitrary(e) ==
+    [bind |-> TRUE, unspec |-> FALSE, violated |-> IF GeneratedValid THEN {} ELSE Props(e)]
+
+\* The specification has NO action for a call that panics, hangs or aborts: such an event is
+\* rejected.  It is consumed (so that the rest of the trace is still validated) and its
+\* verdict names every property the event serves.
+AbnormalVerdict(e) ==
+    [line |-> e.line, bind |-> FALSE, unspec |-> FALSE,
+     violated |-> SetAsSeq(Props(e) \cup (IF e.op \in {"decode2", "decode_type"} THEN {"C04"} ELSE {}))]
+
+TraceAbnormal ==
+    /\ phase = "idle" /\ nexch < Len(Rec) /\ Rec[nexch + 1].outcome # "return"
+    /\ PrintT("VERDICT " \o ToJson(AbnormalVerdict(Rec[nexch + 1])))
+    /\ nexch' = nexch + 1
+    /\ UNCHANGED <<phase, case, wire, req, calls, ret, buf, stale>>
+
 VerdictOf(e) ==
     IF e.outcome # "return"
     THEN [bind |-> FALSE, unspec |-> FALSE,
@@ -198,10 +212,8 @@ VerdictOf(e) ==
            [] e.op = "u2f_encode"  -> Verdict_u2f_encode(e)
            [] e.op = "dispatch"    -> Verdict_dispatch(e)
            [] e.op \in LookupOps    -> Verdict_lookup(e)
+           [] e.op = "arbitrary"   -> Verdict_arbitrary(e)
 
-
-RECURSIVE SetAsSeq(_)
-SetAsSeq(S) == IF S = {} THEN << >> ELSE LET x == CHOOSE x \in S : TRUE IN <<x>> \o SetAsSeq(S \ {x})
 
 Verdict ==
     Terminal =>
@@ -209,5 +221,14 @@ Verdict ==
             v == VerdictOf(e)
         IN  PrintT("VERDICT " \o ToJson([line |-> e.line, bind |-> v.bind, unspec |-> v.unspec,
                                           violated |-> SetAsSeq(v.violated)]))
+
+TraceNext ==
+    \/ TraceHostSends \/ TraceGenerate \/ TraceAbnormal
+    \/ Decode2 \/ Decode1 \/ DecodeType \/ Lookup \/ Call \/ Reject
+    \/ Encode2 \/ Encode1 \/ EncodeType \/ SerializeAuthDataAct
+    \/ NextExchange
+
+TraceSpec == Init /\ [][TraceNext]_vars
+
 
 =============================================================================
